@@ -32,7 +32,7 @@ warnings.filterwarnings("ignore")
 
 NMAX = 8           # largest output-layer parameter count whose matrices are compared entry by entry inside Coq
 TOL = 1.0 / 16384   # entrywise: abs(sigma_inv - S_k) <= TOL / lam (entries of S_k are bounded by 1/lam); measured float32 drift after <= 30 rank-one updates is about 1.3e-7 / lam
-OTOL = 2e-4        # oracle: max abs(sigma_inv @ A - I); measured about 2e-6
+OTOL = 2e-5        # oracle: lam * max abs(sigma_inv - inv(lam I + sum g g^T)) in float64; measured <= 5e-7 after 300 updates
 ALGOS = {"ucb": NeuralUCB, "ts": NeuralTS}
 MUT_KINDS = ("none", "arch", "param", "act", "rl_hp")
 
@@ -303,11 +303,23 @@ class LoopRecorder:
             e["ops"].append(["learn"])
             e["trace"].append(r)
             return loss
-        cls.init_params, cls.get_action, cls.learn = init_params, get_action, learn
+        def clone(agent, *a, **kw):
+            c = me.o_clone(agent, *a, **kw)
+            # the clone's history is its parent's history followed by a Clone op (copy_attributes hands it the parent's
+            # sigma_inv); the constructor / hook calls made while cloning are internal to that op
+            ep = me.rec_of(agent)
+            r = {"op": "clone", "alias": bool(c.sigma_inv.data_ptr() == agent.sigma_inv.data_ptr())}
+            r.update(snap(c, True))
+            me.events[id(c)] = {"agent": c, "init": ep["init"], "ops": list(ep["ops"]) + [["clone"]],
+                                "trace": list(ep["trace"]) + [r], "crash": None, "workarounds": [], "parents": []}
+            return c
+        self.o_clone = cls.clone
+        cls.init_params, cls.get_action, cls.learn, cls.clone = init_params, get_action, learn, clone
         return self
 
     def __exit__(self, *exc):
         self.cls.init_params, self.cls.get_action, self.cls.learn = self.o_init, self.o_act, self.o_learn
+        self.cls.clone = self.o_clone
 
 
 def make_mutations(kind, seed):
@@ -471,7 +483,7 @@ class C19(vlib.Driver):
         cases.append(base(algo="ts", int_params=True, lam=3.0, gamma=2.0, head_act="Tanh", ops=[["act", [0, 1, 1]]] * 4 + [["clone"], ["act", None]]))
         # long runs: float32 drift over many rank-one updates (small matrices, observed every 10th step)
         for _ in range(1 if tier == "quick" else 4):
-            n_upd = 60 if tier == "quick" else 150
+            n_upd = 60 if tier == "quick" else 300
             cases.append(base(algo=rng.choice(["ucb", "ts"]), head=[2], lam=rng.choice([0.5, 2.0]), every=10, ops=[["act", None]] * n_upd))
         # the real training loop (train_bandits) with and without tournament selection + mutation
         nloop = 6 if tier == "quick" else 20
@@ -480,6 +492,21 @@ class C19(vlib.Driver):
                           "lam": rng.choice([0.5, 1.0, 2.0]), "gamma": 1.0, "enc": [rng.randint(2, 4)], "head": [rng.randint(1, 4)],
                           "partial": False, "seed": rng.randrange(10 ** 6), "hpo": i % 3 != 0, "pop": 2,
                           "episode": rng.randint(3, 6), "gens": rng.randint(2, 3), "every": 3})
+        # numpy delete / insert semantics, exhaustive on small arrays
+        for op_ in ("delete", "insert"):
+            for n_ in ((1, 2, 3) if tier == "quick" else (1, 2, 3, 4, 5)):
+                cases.append({"kind": "numpy", "op": op_, "n": n_, "seed": 0, "algo": "ucb", "lam": 1.0})
+        # _reinit_bandit_grads between hand-made layers: all (weights, bias?) -> (weights, bias?) pairs
+        wmax = 3 if tier == "quick" else 4
+        for wo in range(1, wmax + 1):
+            for wn in range(1, wmax + 1):
+                for bo in (0, 1):
+                    for bn in (0, 1):
+                        if bo and bn and tier == "quick" and (wo + wn) % 2:
+                            continue
+                        cases.append({"kind": "resize", "algo": "ucb" if (wo + wn) % 2 else "ts", "arms": 2, "cdim": 2,
+                                      "lam": rng.choice([0.5, 2.0, 4.0]), "gamma": 1.0, "enc": [2], "head": [2], "seed": wo * 10 + wn,
+                                      "synthetic": {"old": [wo, bo], "new": [wn, bn]}})
         # unit stream: the index surgery of _reinit_bandit_grads, exact on tagged matrices
         nres = 16 if tier == "quick" else 60
         for i in range(nres):
@@ -499,6 +526,8 @@ class C19(vlib.Driver):
             warnings.simplefilter("ignore")
             if case["kind"] == "loop":
                 return self.run_loop(case)
+            if case["kind"] == "numpy":
+                return self.run_numpy(case)
             return self.run_hist(case) if case["kind"] == "hist" else self.run_resize(case)
 
     def _resize_actor(self, agent, how, k):
@@ -506,7 +535,41 @@ class C19(vlib.Driver):
         meth = "head_net.add_node" if how == "add" else "head_net.remove_node"
         getattr(agent.actor, meth)(hidden_layer=99, numb_new_nodes=k)
 
+    def run_numpy(self, case):
+        import itertools
+        n, out = case["n"], []
+        base = np.arange(1, n + 1)
+        for k in range(0, 4):
+            rng_idx = range(n) if case["op"] == "delete" else range(n + 1)
+            for idx in itertools.product(rng_idx, repeat=k):
+                idx = list(idx)
+                if case["op"] == "delete":
+                    res = np.delete(base, np.array(idx, dtype=int), 0)
+                else:
+                    res = np.insert(base, np.array(idx, dtype=int), 0, 0)
+                out.append([idx, [int(x) for x in res]])
+        return {"results": out}
+
+    def run_resize_synthetic(self, case):
+        """_reinit_bandit_grads between hand-made Linear layers with / without bias: exercises the branches 'parameter
+        disappears', 'parameter is new' and removal + insertion in one call (never produced by real networks)"""
+        (wo, bo), (wn, bn) = case["synthetic"]["old"], case["synthetic"]["new"]
+        agent = build_agent(case)
+        old = torch.nn.Linear(wo, 1, bias=bool(bo))
+        new = torch.nn.Linear(wn, 1, bias=bool(bn))
+        n = wo + (1 if bo else 0)
+        S = [[float(10 * min(i, j) + max(i, j) + 1) for j in range(n)] for i in range(n)]
+        agent.sigma_inv = torch.tensor(S, dtype=torch.float32)
+        agent.actor.get_output_dense = lambda: new      # instance attribute: the helper asks the actor for its output layer
+        m = make_mutations("none", case["seed"])
+        m._reinit_bandit_grads(agent, agent.actor, old)
+        M = agent.sigma_inv.detach().cpu().double().numpy()
+        return {"old": layer_desc(old), "new": layer_desc(new), "S": S, "M": [[float(x) for x in r] for r in np.atleast_2d(M)],
+                "numel": int(agent.numel), "bound": bool(agent.exp_layer is new), "synthetic": True}
+
     def run_resize(self, case):
+        if case.get("synthetic"):
+            return self.run_resize_synthetic(case)
         agent = build_agent(case)
         n = int(agent.numel)
         S = [[float(10 * min(i, j) + max(i, j) + 1) for j in range(n)] for i in range(n)]
@@ -703,12 +766,17 @@ class C19(vlib.Driver):
             for x in ts:
                 t = f"andb ({x}) ({t})"
             return t
+        if case["kind"] == "numpy":
+            cs = "; ".join("([" + "; ".join(map(str, i)) + "], [" + "; ".join(map(str, r)) + "])" for i, r in obs["results"])
+            return f"check_np_{case['op']} {case['n']} [{cs}]"
         if case["kind"] == "resize":
             dval = 1.0 / case["lam"]
             # which variant of the diagonal fill does this tree exhibit? (judged by the oracle, not by K)
             w_old = dict(map(tuple, obs["old"])).get(0, 0)
             w_new = dict(map(tuple, obs["new"])).get(0, 0)
-            shifted = all(obs["M"][i][i] != 0 for i in range(w_old, min(w_new, len(obs["M"])))) if w_new > w_old else True
+            same_bias = dict(map(tuple, obs["old"])).get(1) == dict(map(tuple, obs["new"])).get(1)
+            shifted = all(obs["M"][i][i] != 0 for i in range(w_old, min(w_new, len(obs["M"])))) \
+                if (w_new > w_old and same_bias) else True
             return (f"check_resize {vlib.coq_bool(shifted)} {self.q_layer(obs['old'])} {self.q_layer(obs['new'])} {coq_Q(dval)} "
                     f"{self.q_mat(obs['S'])} {self.q_mat(obs['M'])}")
         ops, obl = [], []
@@ -774,6 +842,8 @@ class C19(vlib.Driver):
             if obs.get("survivors_recorded", 1) == 0 and not obs["crash"]:
                 V("crash", "train_bandits returned agents the recorder never saw", "train_bandits-unrecorded")
             return out
+        if case["kind"] == "numpy":
+            return out
         if case["kind"] == "resize":
             n_new = sum(n for _, n in obs["new"])
             M = np.array(obs["M"])
@@ -783,7 +853,8 @@ class C19(vlib.Driver):
             if not np.array_equal(M, M.T):
                 V("symmetric", "resized matrix is not symmetric", "resize")
             n_old = sum(n for _, n in obs["old"])
-            if n_new > n_old:
+            same_bias = dict(map(tuple, obs["old"])).get(1) == dict(map(tuple, obs["new"])).get(1)
+            if n_new > n_old and same_bias:
                 # the coordinates that did not exist before carry the initial value 1/lambda on the diagonal
                 w_old = dict(map(tuple, obs["old"])).get(0, 0)
                 w_new = dict(map(tuple, obs["new"])).get(0, 0)
@@ -818,10 +889,14 @@ class C19(vlib.Driver):
             ev = np.linalg.eigvalsh((S + S.T) / 2)
             if ev.min() <= 0:
                 V("posdef", f"{where}: smallest eigenvalue of sigma_inv = {ev.min():.6g}")
-            if A is not None:
-                err = np.max(np.abs(S @ A - np.eye(len(A))))
+            if A is not None and len(A) != len(S):
+                V("inverse", f"{where}: sigma_inv is {len(S)}x{len(S)} but the matrix initialised last and updated since is "
+                  f"{len(A)}x{len(A)}: it was replaced without an initialisation", "replaced")
+            elif A is not None:
+                err = float(np.max(np.abs(S - np.linalg.inv(A)))) * lam      # entries of the inverse are bounded by 1/lambda
+                self._max_err = max(getattr(self, "_max_err", 0.0), float(err))
                 if err > OTOL:
-                    V("inverse", f"{where}: max |sigma_inv @ (lambda I + sum g g^T) - I| = {err:.4g} (lambda={lam}, "
+                    V("inverse", f"{where}: lambda * max |sigma_inv - inv(lambda I + sum g g^T)| = {err:.4g} (lambda={lam}, "
                       f"{'freshly initialised' if fresh else 'after updates'}; sigma_inv[0][0]={S[0, 0]:.6g})",
                       "init" if fresh else "update")
 
@@ -892,12 +967,33 @@ class C19(vlib.Driver):
             V("crash", f"op {c['op_index']} {c['op']} raised {c['error']}", c["op"][0])
         return out
 
+    # ---------- source-tied checks
+    def extra_static(self):
+        """The theorems about _reinit_bandit_grads (resize_linear_size, resize_grow_spec, ...) cover output layers that are
+        nn.Linear(w, 1) with a trainable weight and bias. Check on every run that this is what get_output_dense() is, for every
+        encoder kind the harness builds."""
+        out = []
+        for kind in ("vector", "image", "dict", "simba", "custom", "default"):
+            case = {"algo": "ucb", "arms": 2, "cdim": 3, "lam": 1.0, "gamma": 1.0, "enc": [3], "head": [2], "space": kind}
+            lay = live_layer(build_agent(case))
+            names = [n for n, p in lay.named_parameters() if p.requires_grad]
+            if not (isinstance(lay, torch.nn.Linear) and lay.out_features == 1 and names == ["weight", "bias"]):
+                out.append(Violation("static", f"static:output-layer-not-linear-with-bias:{kind}",
+                                     f"get_output_dense() of a {kind} network is {lay} with trainable parameters {names}: outside the "
+                                     "layer shape covered by the resize theorems", None, None, found_input=False))
+        return out
+
+    def teardown(self):
+        if getattr(self, "_max_err", None) is not None:
+            self.notes = [f"largest float32 deviation observed in this run: lambda * max |sigma_inv - inv(lambda I + sum g g^T)| = {self._max_err:.3g} "
+                          f"(oracle tolerance {OTOL}, K tolerance {TOL}/lambda entrywise)"]
+
     # ---------- evidence helpers
     def key(self, case):
         return super().key(case)
 
     def nontrivial(self, case, obs):
-        if case["kind"] == "resize":
+        if case["kind"] in ("resize", "numpy"):
             return True
         if case["kind"] == "loop":
             return any(sum(1 for r in o["trace"] if r["op"] == "act") >= 3 for o in obs["agents"])
@@ -905,6 +1001,13 @@ class C19(vlib.Driver):
 
     def classify(self, case, obs):
         labs = [f"kind={case['kind']}", f"algo={case['algo']}", f"lam={case['lam']}"]
+        if case["kind"] == "numpy":
+            return [f"numpy={case['op']}:n={case['n']}", f"numpy-index-lists={len(obs['results'])}"]
+        if case["kind"] == "resize" and case.get("synthetic"):
+            (wo, bo), (wn, bn) = case["synthetic"]["old"], case["synthetic"]["new"]
+            labs += ["resize=synthetic", "synthetic-bias=" + ("kept" if bo and bn else "dropped" if bo else "added" if bn else "none"),
+                     "synthetic-weight=" + ("grow" if wn > wo else "shrink" if wn < wo else "same")]
+            return labs
         if case["kind"] == "resize":
             labs.append(f"resize={case['how']}{case['k']}")
             return labs
